@@ -22,10 +22,7 @@ PROPS = {
             "checked against the generator's recipe on every clean packet",
             "exact LenError numbers are judged by C07, not here",
         ],
-        "runs": {
-            "quick": [dict(CHK)],
-            "thorough": [dict(CHK)],
-        },
+        "runs": {"quick": [dict(CHK), {"flavour": "rel", "scale": 0.25}], "thorough": [dict(CHK), {"flavour": "rel", "scale": 0.5}]},
         "mandatory": {
             "agree.ok": 1000, "agree.err": 1000, "selfcheck.recipe_agree": 1000,
             "entry.SlicedPacket::from_ethernet": 100, "entry.SlicedPacket::from_linux_sll": 100,
@@ -44,7 +41,7 @@ PROPS = {
             "reference decoder R and its truthful-report sets (DESIGN appendix A)",
             "reporting LenSource::Slice is always accepted (the statement only constrains other sources)",
         ],
-        "runs": {"quick": [dict(CHK)], "thorough": [dict(CHK)]},
+        "runs": {"quick": [dict(CHK), {"flavour": "rel", "scale": 0.25}], "thorough": [dict(CHK), {"flavour": "rel", "scale": 0.5}]},
         "mandatory": {
             "errors_judged": 10000, "truthful": 10000, "truthful_behind_offset0": 1000, "stop_layer_ok": 1000,
             "cell.content": 100, "cell.*.Ipv4Total": 100, "cell.*.Ipv6Payload": 100, "cell.*.MacsecShort": 20,
@@ -62,7 +59,7 @@ PROPS = {
             "reference decoder R in lax mode (DESIGN appendix B) incl. the documented relaxations (IPv4 total_len / IPv6 "
             "payload_len / MACsec short length / UDP length fall back to the slice)",
         ],
-        "runs": {"quick": [dict(CHK)], "thorough": [dict(CHK)]},
+        "runs": {"quick": [dict(CHK), {"flavour": "rel", "scale": 0.25}], "thorough": [dict(CHK), {"flavour": "rel", "scale": 0.5}]},
         "mandatory": {
             "strict_ok_lax_same": 10000, "lax.layers_agree": 10000, "lax.no_stop": 1000, "lax.err_first_header": 100,
             "lax.stop.Vlan": 10, "lax.stop.Macsec": 10, "lax.stop.Arp": 10, "lax.stop.Ext*": 10, "lax.stop.Udp": 10,
@@ -83,7 +80,7 @@ PROPS = {
             "decoded field values, none of the byte offsets",
             "reference decoder walks (slice mode / struct mode) decide whether the permitted difference applies",
         ],
-        "runs": {"quick": [dict(CHK)], "thorough": [dict(CHK)]},
+        "runs": {"quick": [dict(CHK), {"flavour": "rel", "scale": 0.25}], "thorough": [dict(CHK), {"flavour": "rel", "scale": 0.5}]},
         "mandatory": {
             "same": 10000, "same.udp": 500, "same.tcp": 500, "same.icmpv4": 200, "same.icmpv6": 200, "same.ip": 500,
             "same.ether": 500, "same.macsec_mod": 100, "same.empty": 100, "both_reject": 1000, "same_stop": 1000,
@@ -102,7 +99,7 @@ PROPS = {
             "a too short slice corresponds to io::ErrorKind::UnexpectedEof of a reader",
             "rules that depend on the total slice length (ICMPv4 timestamp exact size, IP total length vs slice) are excluded when only the slice decoder can know them",
         ],
-        "runs": {"quick": [dict(CHK)], "thorough": [dict(CHK)]},
+        "runs": {"quick": [dict(CHK), {"flavour": "rel", "scale": 0.25}], "thorough": [dict(CHK), {"flavour": "rel", "scale": 0.5}]},
         "abnormal_owner": "C06",
         "mandatory": {
             "eth_vs_ether_type.same": 10000, "eth_vs_ether_type.same_error": 1000, "ether_type_vs_ip.same": 10000,
@@ -198,7 +195,7 @@ PROPS = {
                 "presence combination, walk outcome) signatures",
         "assumptions": COMMON_ASSUME + ["the reference walk in harness/src/monitors/c12.rs states RFC 8200 order and the struct's documented layout"],
         "coverage_extra": {"exhaustive_subdomains": {"ipv6 presence x links over S": 3831624}},
-        "runs": {"quick": [dict(CHK)], "thorough": [dict(CHK)]},
+        "runs": {"quick": [dict(CHK), {"flavour": "rel", "scale": 0.25}], "thorough": [dict(CHK), {"flavour": "rel", "scale": 0.5}]},
         "mandatory": {
             "exhaustive.configurations": 3831624, "consistent_chains": 10000, "decoded_same": 5000, "hbh_not_at_start": 1000,
             "inconsistent_chains_rejected": 100000, "set_next_headers_ok": 40000, "ipv4.chains": 5000, "wrappers.write_ok": 10000,
@@ -218,7 +215,7 @@ PROPS = {
             "where several rules are broken at once every truthful error description is accepted",
         ],
         "coverage_extra": {"exhaustive_subdomains": {"raw areas len 0..3": 16843009, "raw (kind,len,left)": 2555904, "list shapes len 0..7": 5380840}},
-        "runs": {"quick": [dict(CHK)], "thorough": [dict(CHK)]},
+        "runs": {"quick": [dict(CHK), {"flavour": "rel", "scale": 0.25}], "thorough": [dict(CHK), {"flavour": "rel", "scale": 0.5}]},
         "abnormal_owner": "C13",
         "mandatory": {
             "exh.raw_len_0": 1, "exh.raw_len_1": 256, "exh.raw_len_2": 65536, "exh.raw_len_3": 16777216, "exh.raw_kind_len_left": 2555904,
@@ -330,7 +327,7 @@ PROPS = {
             "reference decoder R (strict) and refmodel/checksum.rs, refmodel/tcpopts.rs",
             "ICMPv4 timestamp messages are only judged with the payload their fixed size admits",
         ],
-        "runs": {"quick": [dict(CHK)], "thorough": [dict(CHK)]},
+        "runs": {"quick": [dict(CHK), {"flavour": "rel", "scale": 0.25}], "thorough": [dict(CHK), {"flavour": "rel", "scale": 0.5}]},
         "mandatory": {
             "consistent_packets": 500000, "three_writers_identical": 500000, "consistent.Udp.v4": 20000, "consistent.Udp.v6": 20000,
             "consistent.Tcp.v4": 20000, "consistent.Tcp.v6": 20000, "consistent.Icmp4.v4": 20000, "consistent.Icmp6.v6": 20000,
@@ -350,7 +347,7 @@ PROPS = {
             "LenError layer / len_source are C07's job; only required_len and len are compared here",
         ],
         "coverage_extra": {"exhaustive_subdomains": {"icmpv4 (type,code)": 65536, "icmpv6 (type,code)": 65536, "ndp (type,units)": 65280, "arp (hlen,plen)": 65536}},
-        "runs": {"quick": [dict(CHK)], "thorough": [dict(CHK)]},
+        "runs": {"quick": [dict(CHK), {"flavour": "rel", "scale": 0.25}], "thorough": [dict(CHK), {"flavour": "rel", "scale": 0.5}]},
         "mandatory": {
             "exhaustive.icmp4.typed_pairs": 29, "exhaustive.icmp4.unknown_pairs": 65507, "exhaustive.icmp6.typed_pairs": 28,
             "exhaustive.icmp6.unknown_pairs": 65508, "exhaustive.ndp.type_units_pairs": 65280, "exhaustive.igmp.type_len_pairs_accepted": 8445,
@@ -373,7 +370,7 @@ PROPS = {
             "Ipv4Header::write / IpHeaders::write deliberately recompute the header checksum (documented): compared through write_raw / with inputs that carry a correct checksum",
             "reference encoders are replaced by the reserved-bit mask comparison against accepted input bytes; IGMP, group records and PrefixInformation round trips are covered by C17/C09",
         ],
-        "runs": {"quick": [dict(CHK)], "thorough": [dict(CHK)]},
+        "runs": {"quick": [dict(CHK), {"flavour": "rel", "scale": 0.25}], "thorough": [dict(CHK), {"flavour": "rel", "scale": 0.5}]},
         "mandatory": {
             "bytes.round_trips": 1000000, "bytes.reencoded_identical_under_mask": 800000, "bytes.two_serialisers_agree": 1000000,
             "values.round_trips": 800000, "setters.ok": 1000000, "values.type.Icmpv4Header(timestamp)": 5000,
